@@ -22,6 +22,7 @@ type WorldCfg struct {
 	NoModule    bool // never take the TDX-module branch
 	ForceModule bool
 	LowerHexIDs bool // render fmspc / pceId in lower case only (used until upper-case handling is known to work)
+	RealNow     bool // sometimes judge at the real current time through Options.Now == nil
 }
 
 // Drawn records the structural choices of a drawn world (labels for coverage statistics).
@@ -130,7 +131,7 @@ func DrawWorld(t *rapid.T, cfg WorldCfg) (*World, *Drawn) {
 
 	module := !cfg.NoModule && (cfg.ForceModule || rapid.IntRange(0, 2).Draw(t, "module") == 0)
 	if module {
-		q.TeeTcbSvn[1] = byte(rapid.IntRange(1, 9).Draw(t, "moduleVersion"))
+		q.TeeTcbSvn[1] = byte(rapid.OneOf(rapid.IntRange(1, 9), rapid.IntRange(10, 255), rapid.SampledFrom([]int{10, 15, 16, 99, 100, 255})).Draw(t, "moduleVersion"))
 		d.add(true, "module-branch")
 	} else {
 		q.TeeTcbSvn[1] = 0
@@ -182,6 +183,9 @@ func DrawWorld(t *rapid.T, cfg WorldCfg) (*World, *Drawn) {
 			l := matchingLevel(w, s, module, rapid.SampledFrom(Statuses).Draw(t, "afterStatus"))
 			levels = append(levels, l)
 		}
+		for i := range levels {
+			levels[i].Date = LevelDates[s.Intn(len(LevelDates))]
+		}
 		w.TcbInfo.Levels = levels
 		d.add(k > 0, "level-pos>0")
 		if module {
@@ -200,7 +204,11 @@ func DrawWorld(t *rapid.T, cfg WorldCfg) (*World, *Drawn) {
 			}
 			ids := []ModuleIdentity{{ID: id, Mrsigner: append([]byte{}, q.MrSignerSeam[:]...), Attributes: make([]byte, 8), Mask: bytesOf(0xff, 8), Levels: ml}}
 			// unrelated identities before / after
-			other := ModuleIdentity{ID: fmt.Sprintf("TDX_%02x", (int(q.TeeTcbSvn[1])+3)%16+16), Mrsigner: s.Bytes(48), Attributes: make([]byte, 8), Mask: bytesOf(0xff, 8), Levels: []ModuleLevel{{Isvsvn: 0, Status: "Revoked"}}}
+			otherID := fmt.Sprintf("TDX_%02x", (int(q.TeeTcbSvn[1])+3)%16+16)
+			if dec := fmt.Sprintf("TDX_%02d", q.TeeTcbSvn[1]); dec != id {
+				otherID = dec // the decimal spelling of the version names a DIFFERENT identity
+			}
+			other := ModuleIdentity{ID: otherID, Mrsigner: s.Bytes(48), Attributes: make([]byte, 8), Mask: bytesOf(0xff, 8), Levels: []ModuleLevel{{Isvsvn: 0, Status: "Revoked"}}}
 			switch rapid.IntRange(0, 2).Draw(t, "otherIdentity") {
 			case 1:
 				ids = append([]ModuleIdentity{other}, ids...)
@@ -227,6 +235,9 @@ func DrawWorld(t *rapid.T, cfg WorldCfg) (*World, *Drawn) {
 		if rapid.Bool().Draw(t, "qeAfter") {
 			ql = append(ql, QeLevel{Isvsvn: 0, Status: rapid.SampledFrom(Statuses).Draw(t, "qeAfterStatus")})
 		}
+		for i := range ql {
+			ql[i].Date = LevelDates[s.Intn(len(LevelDates))]
+		}
 		w.QeID.Levels = ql
 		d.add(qk > 0, "qe-level-pos>0")
 		// CRLs with unrelated serials
@@ -245,6 +256,15 @@ func DrawWorld(t *rapid.T, cfg WorldCfg) (*World, *Drawn) {
 			return Wide.NotBefore.Add(time.Duration(10+rapid.Int64Range(0, span).Draw(t, label)) * time.Second)
 		}
 		w.Times = verify.TimeSet{PckCertChain: pick("tChain"), TcbInfo: pick("tTcb"), QeIdentity: pick("tQe"), PckCrl: pick("tPckCrl"), RootCaCrl: pick("tRootCrl")}
+		// revocation dates of the (unrelated) entries are informational: anywhere, including after the judging times
+		for i := range w.PckCrl.Revoked {
+			w.PckCrl.RevokedAt = append(w.PckCrl.RevokedAt, Wide.NotBefore.Add(time.Duration(s.Intn(int(span)))*time.Second))
+			_ = i
+		}
+	}
+	if cfg.RealNow && rapid.IntRange(0, 3).Draw(t, "realNow") == 0 {
+		w.UseRealNow()
+		d.add(true, "default-time-set")
 	}
 	return w, d
 }
